@@ -3,7 +3,7 @@ network runs every frame - "the true Viterbi optimum" needs each of them to comp
 
   - HmmSem.tla  Layer A: paths with entry identities moving along the transitions that exist, per state the best score
     per identity; what the object must show (best score, the identity of a best path, its senone sequence);
-  - HmmStep.tla Layer B: hmm_vit_eval_3st_lr, its multiplexed twin, hmm_vit_eval_5st_lr and hmm_vit_eval_anytopo transcribed statement by
+  - HmmStep.tla Layer B: hmm_vit_eval_3st_lr, its multiplexed twin, hmm_vit_eval_5st_lr, its multiplexed twin and hmm_vit_eval_anytopo transcribed statement by
     statement; TLC checks Exact / NoWrap / BestBounds for every left-to-right 3-state topology over small score sets,
     every order of enter / evaluate / clear / normalise; negative control: the routines as they were (scratch variable
     t2 not reset before state 2) violate Exact on a topology with the skip into the exit but not the one over state 1;
@@ -19,7 +19,7 @@ from vlib import sut, tlc, tours, tracecheck, runner
 SPEC = os.path.join(sut.VERIF, "specs", "hmm")
 SCALE = 37
 MODELS_Q = ["Hmm_lr3_q", "Hmm_any2_q", "Hmm_any3_q", "Hmm_lr3_sym", "Hmm_lr5_q"]
-MODELS_T = ["Hmm_lr3mpx_q", "Hmm_anympx3_q", "Hmm_lr3_t", "Hmm_any3_t", "Hmm_lr5_t", "Hmm_any5_q"]
+MODELS_T = ["Hmm_lr3mpx_q", "Hmm_anympx3_q", "Hmm_lr3_t", "Hmm_any3_t", "Hmm_lr5_t", "Hmm_any5_q", "Hmm_lr5mpx_q"]
 # negative controls: the 3-state routines as they were (stale t2); the 5-state routine on a topology without skips (it
 # adds the score 255 of "no transition" like any other: an observation, the bundled models have 3 states)
 NEG = ["Hmm_lr3_aswritten", "Hmm_lr3mpx_aswritten", "Hmm_lr5_noskip"]
